@@ -5,7 +5,7 @@ independent std::map twin (and std::unordered_multimap for the wrapper) which is
 import os, re
 
 MS = [1, 2, 3, 4, 7, 15]
-GEN = ['gen_growcap.json', 'gen_arraybucket.json', 'gen_arraybucket_cnt.json', 'gen_arraybucket_s.json']
+GEN = ['gen_growcap.json', 'gen_arraybucket.json', 'gen_arraybucket_cnt.json', 'gen_arraybucket_s.json', 'gen_hashmultimap.json']
 BUCKETS = ['L.c', 'O8.c', 'O2.c', 'L.f', 'O8.f', 'O2.f']
 
 # ----------------------------------------------------------------------------- generators
@@ -187,7 +187,7 @@ def gen_cases(ctx, scale):
 
 
 # ----------------------------------------------------------------------------- the property predicate on impl output
-REC = re.compile(r'n=(\d+) kc=(\d+) ((?:\{[^}]*\})*) T=((?:\([^)]*\))*)')
+REC = re.compile(r'n=(\d+) kc=(\d+) v=\d+ ((?:\{[^}]*\})*) T=((?:\([^)]*\))*)')
 
 def check_dump(d):
     m = REC.fullmatch(d.strip())
@@ -232,7 +232,7 @@ def oracle(ctx, cases, impl_lines):
                 if why: break
             if why: bad.append((c, out[-400:], why)); continue
             if ':H' in out and ':N:}' in out: ctx.nontrivial.add(c)
-        elif c.split()[0] in ('gc', 'ms', 'gp', 'fi', 'ab2'):
+        elif c.split()[0] in ('gc', 'ms', 'gp', 'fi', 'ab2', 'hm'):
             pass      # translator validation only: decided by the correspondence with the generated Gallina
         elif c.startswith('um '):
             if 'eqT' in out or 'er' in out: ctx.nontrivial.add(c)
@@ -463,8 +463,15 @@ def run(ctx):
     cases = gen_cases(ctx, scale)
     um_cases = gen_um_cases(ctx, scale) if exes.get(0) else []
     # the executable models are extracted even when a PROOF broke (make -k still builds the model .vo files): the
-    # correspondence is what turns a broken refinement lemma into a concrete failing input
+    # correspondence is what turns a broken refinement lemma into a concrete failing input.  Two drivers: the hand models
+    # (driver.ml) and the generated functions (driver_gen.ml) -- a generated function that changes shape only breaks the latter.
     have_model = bool(ctx.extract())
+    model_exe = getattr(ctx, 'model_exe', None) if have_model else None
+    ext1 = dict(ctx.stages.get('extract', {}))
+    have_gen = bool(ctx.extract(driver='driver_gen.ml', exe='gen_driver'))
+    gen_exe = ctx.model_exe if have_gen else None
+    ctx.stages['extract-gen'] = ctx.stages.pop('extract'); ctx.stages['extract'] = ext1
+    ctx.model_exe = model_exe
     if any(not s['ok'] for s in ctx.stages.values()):
         ctx.log('a stage broke: searching the implementation for a failing input with the thorough generator')
         cases = cases + gen_cases(ctx, 4)
@@ -472,15 +479,20 @@ def run(ctx):
     for c in cases:
         h = exes.get(cfg_of(c))
         if h is not None: byexe.setdefault(h, []).append(c)
-    groups = sorted(byexe.items()) + [(exes.get(0), um_cases), (exes.get('gen'), gen_kernel_cases(ctx))]
+    kc = gen_kernel_cases(ctx)
+    groups = sorted(byexe.items()) + [(exes.get(0), um_cases), (exes.get('gen'), [c for c in kc if c.startswith('ab2')]),
+                                      ('GEN', [c for c in kc if not c.startswith('ab2')])]
     total_bad = []; injected_total = [0, 0, 0, 0, 0, 0]; dist = new_dist()
     for h, cs in groups:
+        drv, has = model_exe, have_model
+        isgen = (h == 'GEN')
+        if isgen: h = exes.get('gen'); drv, has = gen_exe, have_gen
         if h is None or not cs: continue
         M = 0 if h in (exes.get(0), exes.get('gen')) else 1
-        name = 'generated-kernels' if h == exes.get('gen') else 'wrapper' if not M else 'mm-' + re.sub(r'^harness_([mc]\d+)_.*$', r'\1', os.path.basename(h))
+        name = 'generated-kernels' if isgen else 'two-buckets' if h == exes.get('gen') else 'wrapper' if not M else 'mm-' + re.sub(r'^harness_([mc]\d+)_.*$', r'\1', os.path.basename(h))
         impl_lines = None
-        if have_model:
-            mism, (rc1, e1, rc2, e2) = ctx.correspond(name, cs, [h], [ctx.model_exe])
+        if has:
+            mism, (rc1, e1, rc2, e2) = ctx.correspond(name, cs, [h], [drv])
             ctx.tie_obligations.append({'name': 'extracted model == real C++ (%s) on %d op scripts' % (name, len(cs)), 'ok': not mism and rc1 == 0 and rc2 == 0})
             for (i, c, a, b) in mism[:2]:
                 # first differing record
@@ -497,7 +509,7 @@ def run(ctx):
             for q in range(6): injected_total[q] += int(mi.group(q + 1))
         if M and rc == 0 and len(lines) == len(cs):
             for c, o in zip(cs, lines): measure(dist, c, o)
-        if not have_model: ctx.evaluations += len(cs)
+        if not has: ctx.evaluations += len(cs)
         bad = oracle(ctx, cs, lines) if rc == 0 and len(lines) == len(cs) else [(cs[min(len(lines), len(cs) - 1)], err[-400:], 'harness crashed (rc=%d) after %d cases' % (rc, len(lines)))]
         total_bad += bad
     ctx.stage('oracle', not total_bad, total_bad[0][2] if total_bad else '')
@@ -539,6 +551,23 @@ def gen_kernel_cases(ctx):
     for st in range(256): cases.append('gp %d' % st)
     for n in list(range(0, 10)) + [2 ** 64 - 1]:
         cases.append('fi 7 %d' % n); cases.append('fi 2 %d' % n)
+    # HashMultiMap members with generated count / version / returned-position arithmetic, on a real container
+    for i in range(200 if ctx.quick() else 1000):
+        ops = []; lens = {}; nv = 0
+        for _ in range(r.range(3, 60)):
+            t = r.below(100); k = r.below(r.choice([1, 2, 4, 9]))
+            if t < 50: nv += 1; ops.append('a,%d,%d' % (k, nv)); lens[k] = lens.get(k, 0) + 1
+            elif t < 82:
+                L = lens.get(k, 0); i = r.choice([0, max(L - 1, 0), r.below(L + 1)])
+                ops.append('r,%d,%d' % (k, i))
+                if k in lens and i < L: lens[k] = L - 1
+            elif t < 88:
+                ops.append('v,%d' % k)
+                if k in lens: lens[k] = 0
+            elif t < 94: ops.append('K,%d' % k); lens.pop(k, None)
+            elif t < 97: ops.append('c'); lens = {}
+            else: ops.append('D')
+        cases.append('hm ' + ' '.join(ops))
     # two real ArrayBucket objects, every member that writes mPtr (frame machine ab2_step)
     for i in range(300 if ctx.quick() else 1500):
         M = r.choice([1, 2, 7, 15]); ops = []; la = lb = 0; nv = 0
